@@ -290,6 +290,12 @@ func (f *frame) invoke(c *ssa.CallCommon, recv Val, args []Val, pos string) Val 
 // callSiteAsserts checks the caller's `at call X#n assert e` clauses (the call's
 // arguments are available as arg0, arg1, ...).
 func (f *frame) callSiteAsserts(key string, ord int, args []Val, pos string) {
+	f.callSiteAssertsIf("true", key, ord, args, pos)
+}
+
+// callSiteAssertsIf: the same for an operation that happens only when cond holds (a send
+// case of a select statement; key "chan.send", arg0 the channel, arg1 the value).
+func (f *frame) callSiteAssertsIf(cond string, key string, ord int, args []Val, pos string) {
 	x := f.x
 	if !f.top || x.top == nil {
 		return
@@ -303,6 +309,9 @@ func (f *frame) callSiteAsserts(key string, ord int, args []Val, pos string) {
 			}
 			cenv.lookup = func(name string) (Val, bool) { return f.lookupName(name, f.curBlock, f.st) }
 			t := x.evalClause(cenv, &ca.Clause)
+			if cond != "true" {
+				t = Implies(cond, t)
+			}
 			f.assert(fmt.Sprintf("callsite.%s#%d.%s", key, ord, clauseName(&ca.Clause, i)), "call-site assertion: "+ca.Clause.Text, t, &ca.Clause, pos)
 		}
 	}
